@@ -13,8 +13,8 @@ def fpaths(prog, f, cap=20000, prune=True):
     """list of PathFacts for all enumerated paths of f (cached per Program)"""
     key = (id(prog), f.qualname, cap, prune)
     if key not in _PATH_CACHE:
-        paths = enum_paths(f.node.body, cap=cap, prune=prune)
-        pfs = [walk_path(p) for p in paths]
+        paths = enum_paths(f.node.body, cap=cap, prune=prune, prog=prog, func=f)
+        pfs = [walk_path(p, prog=prog, func=f) for p in paths]
         _PATH_CACHE[key] = [pf for pf in pfs if not infeasible(pf)]
     return _PATH_CACHE[key]
 
@@ -40,6 +40,8 @@ def static_truth(test):
     if isinstance(test, ast.UnaryOp) and isinstance(test.op, ast.Not):
         v = static_truth(test.operand)
         return None if v is None else (not v)
+    if isinstance(test, ast.Constant) and isinstance(test.value, (bool, int, str, type(None))):
+        return bool(test.value)
     if isinstance(test, ast.Compare) and len(test.ops) == 1:
         l, op, r = test.left, test.ops[0], test.comparators[0]
         if isinstance(op, (ast.Eq, ast.NotEq)):
@@ -60,9 +62,37 @@ def static_truth(test):
 
 
 def infeasible(pf):
+    """a path is infeasible when a guard is decided the other way by constant propagation, or when two guards with the same
+    substituted test (same expression over the inputs and the heap as read at that point) were taken with opposite outcomes"""
+    seen = {}
     for g in pf.guards:
-        v = static_truth(g[0])
-        if v is not None and v != g[1]:
+        t, pol = g[0], g[1]
+        v = static_truth(t)
+        if v is not None and v != pol:
+            return True
+        while isinstance(t, ast.UnaryOp) and isinstance(t.op, ast.Not):
+            t, pol = t.operand, not pol
+        if isinstance(t, ast.Compare) and len(t.ops) == 1 and isinstance(t.ops[0], (ast.IsNot, ast.NotEq, ast.NotIn)):
+            k = ("cmp", type(t.ops[0]).__name__[:2], _ekey(t.left), _ekey(t.comparators[0]))
+            pol = not pol
+        elif isinstance(t, ast.Compare) and len(t.ops) == 1 and isinstance(t.ops[0], (ast.Is, ast.Eq, ast.In)):
+            k = ("cmp", type(t.ops[0]).__name__[:2], _ekey(t.left), _ekey(t.comparators[0]))
+        else:
+            k = _ekey(t)
+        if _impure(t):
+            continue
+        if k in seen and seen[k] != pol:
+            return True
+        seen[k] = pol
+    return False
+
+
+def _impure(t):
+    """tests whose value may change between two evaluations although the text is the same (loop-carried or synthetic markers)"""
+    for n in ast.walk(t):
+        if isinstance(n, ast.Name) and n.id.startswith("$") and not n.id.startswith("$arg"):
+            return True
+        if isinstance(n, ast.Call) and isinstance(n.func, ast.Name) and n.func.id.startswith("$"):
             return True
     return False
 
@@ -143,6 +173,11 @@ def guard_assignment(guards, rename=self_rename):
             if c == -1 and len(mono) == 1 and mono[0][0][0] in ("b", "p"):
                 out[mono[0][0]] = Term.const(0 if pol else 1)
     return out
+
+
+def path_asg(pf, rename=self_rename):
+    """assignment of the boolean / predicate atoms fixed by the guards of a path (all guards, not only the enclosing ones)"""
+    return guard_assignment(pf.guards, rename)
 
 
 def guard_cases(guards, rename=self_rename, cap=16):
@@ -381,3 +416,59 @@ def fxp_names_in(prog, f):
                 elif isinstance(v.func, ast.Attribute) and v.func.attr in ("copy", "deepcopy", "like") and dotted(v.func.value) in names | {"self"}:
                     names.add(n.targets[0].id)
     return names
+
+
+def effective_owners(prog, f, _seen=None):
+    """pinned functions on whose behalf f writes: f itself when it is in the pinned table, otherwise (a helper introduced by a
+    refactoring) the effective owners of all its callers"""
+    from .pinned import PINNED_FUNCS
+    if f.qualname in PINNED_FUNCS:
+        return {f.qualname}
+    _seen = _seen or set()
+    if f.qualname in _seen:
+        return set()
+    _seen.add(f.qualname)
+    out = set()
+    callers = 0
+    for g in prog.all_funcs():
+        if g is f:
+            continue
+        for c in calls_in(g.node):
+            fn = c.func
+            nm = fn.attr if isinstance(fn, ast.Attribute) else (fn.id if isinstance(fn, ast.Name) else None)
+            if nm == f.name:
+                callers += 1
+                out |= effective_owners(prog, g, _seen)
+                break
+    if not callers:
+        out.add(f.qualname)      # unreachable helper: stands for itself
+    return out
+
+
+def closure_funcs(prog, f, _seen=None):
+    """f plus the unpinned helper functions reachable from it (what the path engine inlines)"""
+    from .pinned import PINNED_FUNCS
+    _seen = _seen if _seen is not None else []
+    if f in _seen:
+        return _seen
+    _seen.append(f)
+    for c in calls_in(f.node):
+        fn = c.func
+        q = None
+        if isinstance(fn, ast.Name):
+            q = prog.resolve_name(f, fn.id)
+        elif isinstance(fn, ast.Attribute) and dotted(fn.value) == "self" and f.cls:
+            m = prog.method(f.cls, fn.attr, required=False, module=f.module)
+            q = m.qualname if m is not None else None
+        elif isinstance(fn, ast.Attribute) and dotted(fn.value) == "utils":
+            q = "utils." + fn.attr
+        if q and q in prog.funcs and q not in PINNED_FUNCS:
+            closure_funcs(prog, prog.funcs[q], _seen)
+    return _seen
+
+
+def walk_closure(prog, f):
+    """(func, node) for every AST node of f and of the helpers inlined into it"""
+    for g in closure_funcs(prog, f):
+        for n in ast.walk(g.node):
+            yield g, n
